@@ -85,6 +85,11 @@ class State:
             return True
         if z3.is_false(c):
             return False
+        for d in self.decisions:      # (quantified conditions are invisible to the quantifier-free entailment check)
+            if d.eq(c):
+                return True
+            if z3.is_not(d) and d.arg(0).eq(c):
+                return False
         if self.entails(c):
             return True
         if self.entails(z3.Not(c)):
